@@ -135,11 +135,12 @@ type outcome struct {
 }
 
 type decoder struct {
-	in      chan job
-	out     chan outcome
-	timer   *time.Timer
-	tainted bool // a confirmed hang left a runaway goroutine behind: allocation figures are no longer attributable
-	cur     *os.File
+	in        chan job
+	out       chan outcome
+	timer     *time.Timer
+	tainted   bool // a confirmed hang left a runaway goroutine behind: allocation figures are no longer attributable
+	cur       *os.File
+	abandoned []chan outcome
 }
 
 const (
@@ -208,6 +209,7 @@ func (d *decoder) run(j job, limit time.Duration) outcome {
 		return o
 	case <-d.timer.C:
 		// abandon the goroutine (it cannot be killed) and start a fresh one
+		d.abandoned = append(d.abandoned, d.out)
 		d.spawn()
 		return outcome{timeout: true}
 	}
@@ -226,6 +228,18 @@ func (d *decoder) decode(j job) (o outcome, hung bool, rerun bool) {
 		d.tainted = true
 		return o, true, true
 	}
+	// the re-run finished: the abandoned first run must finish too before allocation
+	// figures of later inputs can be attributed again
+	for _, ch := range d.abandoned {
+		d.timer.Reset(deadline2)
+		select {
+		case <-ch:
+			d.timer.Stop()
+		case <-d.timer.C:
+			d.tainted = true
+		}
+	}
+	d.abandoned = nil
 	return o, false, true
 }
 
